@@ -30,10 +30,17 @@ func init() { register("C33", c33{}) }
 
 func (c33) Parallel() bool { return false }
 
-const (
+// the endpoints of the server under test; mode N lines (other endpoint configurations, incl. nested ones) swap
+// them for the duration of one case (the property's harness runs sequentially)
+var (
 	c33API = "s3.localhost"
 	c33Web = "s3-website.localhost"
 )
+
+// endpoint configurations of mode N: API domain below the website domain, website domain below the API domain,
+// both below a common parent that is itself the website domain's parent
+var c33Configs = [][2]string{{"s3.example.com", "example.com"}, {"example.com", "web.example.com"}, {"s3.localhost", "localhost"}, {"s3.eu.example.com", "s3-website.eu.example.com"}}
+var c33NHandlers = map[string]http.Handler{}
 
 type c33Call struct {
 	op          string
@@ -232,6 +239,19 @@ func (c33) Run(in string, scratch string) Result {
 		c33Handler = server.SetupServer(nil, "eu-central-1", c33API, c33Web, c33Auth, c33Store)
 	})
 	f := strings.Split(in, " ")
+	nested := false
+	if len(f) == 7 && f[0] == "N" { // mode A under another endpoint configuration
+		api, web := untokBytes(f[5]), untokBytes(f[6])
+		oldAPI, oldWeb, oldH := c33API, c33Web, c33Handler
+		defer func() { c33API, c33Web, c33Handler = oldAPI, oldWeb, oldH }()
+		hk := api + "|" + web
+		if c33NHandlers[hk] == nil {
+			c33NHandlers[hk] = server.SetupServer(nil, "eu-central-1", api, web, c33Auth, c33Store)
+		}
+		c33API, c33Web, c33Handler = api, web, c33NHandlers[hk]
+		f = append([]string{"A"}, f[1:5]...)
+		nested = true
+	}
 	if len(f) != 5 || (f[0] != "A" && f[0] != "E") {
 		return Result{Out: "PARSE-ERROR", Tags: []string{"malformed"}}
 	}
@@ -258,6 +278,9 @@ func (c33) Run(in string, scratch string) Result {
 
 	oracle := "-"
 	tags := []string{"mode-" + mode, "m-" + method}
+	if nested {
+		tags = append(tags, "other-endpoints")
+	}
 	switch {
 	case isVhost:
 		tags = append(tags, "vhost")
@@ -465,7 +488,36 @@ func (c33) Gen(r *Rng, tier string, n int) []string {
 			emit("A", method, r.Pick([]string{"." + c33API, c33API + ".", "x" + c33API, "." + c33Web, c33Web, "b." + c33API + ":", "[::1]:80", "b.s3.localhost.evil.com", "S3.LOCALHOST", "a.b.c." + c33API}), path)
 		}
 	}
-	for len(cases) < n { // end to end on real storage: PUT both ways
+	// other endpoint configurations (mode N): the same request shapes with the API and website domains nested
+	for i := 0; i < n/12; i++ {
+		cfg := c33Configs[r.Intn(len(c33Configs))]
+		oldAPI, oldWeb := c33API, c33Web
+		c33API, c33Web = cfg[0], cfg[1]
+		method := r.Pick(c33Methods)
+		b := r.Pick(c33Buckets)
+		path := "/" + c33Key(r)
+		if r.Chance(15) {
+			path = "/"
+		}
+		var host string
+		switch k := r.Intn(10); {
+		case k < 4:
+			host = b + "." + c33API
+		case k < 6:
+			host = c33API
+			path = "/" + b + path
+		case k < 8:
+			host = b + "." + c33Web
+		case k < 9:
+			host = r.Pick([]string{c33Web, "x" + c33API, "www.other.org", b + ".x." + c33API, b + ".s3." + c33Web})
+		default:
+			host = b + "." + c33API + ":8080"
+		}
+		line := c33Line("N", method, host, path) + " " + tokBytes(c33API) + " " + tokBytes(c33Web)
+		c33API, c33Web = oldAPI, oldWeb
+		cases = append(cases, line)
+	}
+	for len(cases) < n+n/12 { // end to end on real storage: PUT both ways
 		b := r.Pick(c33Buckets)
 		key := c33Key(r)
 		if r.Chance(35) {
